@@ -1,7 +1,10 @@
 (* C06 -- executable glue for the correspondence harness (harness/props/c06.py). *)
 From Coq Require Import ZArith List Bool String Ascii.
 Import ListNotations.
-Require Import EmbossV.Text.IntCodec EmbossV.Text.StructText.
+Set Warnings "-notation-overridden".
+Require Import EmbossV.Bits.Model.
+Require Import EmbossV.Text.IntCodec EmbossV.Text.StructText EmbossV.Text.Store.
+Set Warnings "+notation-overridden".
 Open Scope Z_scope.
 
 (* character codes of a Coq string literal (the harness writes ASCII texts as literals) *)
@@ -159,3 +162,60 @@ Definition run_update_flat (c : sch * leaf_tab * list Z) : Z * list Z :=
 
 Definition run_update_flat_eqb (a b : Z * list Z) : bool :=
   (fst a =? fst b) && list_eqb (snd a) (snd b).
+
+(* ---- (c) the concrete byte store (Text/Store.v): UpdateFromText of the model's text into a
+   zeroed buffer of n bytes, with TryToWrite = the scalar views of Bits/Model.v.  Result: status
+   (0 = true, 1 = false, 2 = bad, 3 = fuel) and the bytes of the buffer afterwards, once with the
+   static layout `tab` (the locations the emitted fields have in the view the text was written
+   from) and once with the dependent layout `dt` (locations and existence conditions evaluated on
+   the buffer being restored); and the instance of struct_roundtrip_static: when the case is in
+   the proved class, the update succeeded and every emitted field reads back. *)
+Definition reads_back (L : layout) (evs : list event) (w : list Z) : bool :=
+  forallb (fun e => match store_rd L (fst e) w with Some y => wv_eqb y (snd e) | None => false end) evs.
+
+Definition run_upd (L : layout) (fuel : nat) (sc : sch) (text : list Z) (n : nat) : Z * list Z :=
+  match update_from_text (list Z) (store_tw L) fuel sc text (zeros n) with
+  | UOk _ w => (0, w)
+  | UFail w => (1, w)
+  | UBad => (2, [])
+  | UFuel => (3, [])
+  end.
+
+Definition store_case := (gentab * opts * tval * nat * ltab * dtab)%type.
+Definition store_out := (Z * list Z * (Z * list Z) * bool)%type.
+
+Definition run_store (c : store_case) : store_out :=
+  let '(g, o, v, n, tab, dt) := c in
+  let text := write_to_string g o v in
+  let evs := events_of g [] v in
+  let sc := schema_of v in
+  let r1 := run_upd (static_layout tab) (fuel_for text) sc text n in
+  let r2 := run_upd (dyn_layout (S (List.length dt)) dt) (fuel_for text) sc text n in
+  let thm := if layout_okb n tab evs
+             then (fst r1 =? 0) && reads_back (static_layout tab) evs (snd r1)
+             else true in
+  (* the instance of struct_roundtrip_dynamic *)
+  let dl := dyn_layout (S (List.length dt)) dt in
+  let thm2 := if layout_okb n (resolve dt [] evs) evs && Nat.leb (List.length evs) (S (List.length dt))
+              then (fst r2 =? 0) && reads_back dl evs (snd r2)
+              else true in
+  (fst r1, snd r1, r2, thm && thm2).
+
+Definition store_out_eqb (a b : store_out) : bool :=
+  let '(s1, b1, (t1, c1), k1) := a in
+  let '(s2, b2, (t2, c2), k2) := b in
+  (s1 =? s2) && list_eqb b1 b2 && (t1 =? t2) && list_eqb c1 c2 && Bool.eqb k1 k2.
+
+(* is the case in the class struct_roundtrip_static is proved for? *)
+Definition run_inclass (c : gentab * tval * nat * ltab) : bool :=
+  let '(g, v, n, tab) := c in layout_okb n tab (events_of g [] v).
+
+(* is the case in the class struct_roundtrip_dynamic is proved for? *)
+Definition run_inclass_dyn (c : gentab * tval * nat * dtab) : bool :=
+  let '(g, v, n, dt) := c in
+  let evs := events_of g [] v in
+  layout_okb n (resolve dt [] evs) evs && Nat.leb (List.length evs) (S (List.length dt)).
+
+(* constructors for the generated case files *)
+Definition loc_whole (o : order) (boff c : nat) (k : skind) (t : ity) : loc := mk_loc o boff c None k t.
+Definition loc_bits (o : order) (boff c : nat) (off w : Z) (k : skind) (t : ity) : loc := mk_loc o boff c (Some (off, w)) k t.
